@@ -929,6 +929,8 @@ const ESC_ALPHABET: &[u32] = &[
     '\\' as u32, '^' as u32, '$' as u32, '.' as u32, '|' as u32, '?' as u32, '*' as u32, '+' as u32, '(' as u32, ')' as u32,
     '[' as u32, ']' as u32, '{' as u32, '}' as u32, '-' as u32, '/' as u32, ',' as u32, '<' as u32, '=' as u32, '!' as u32,
     ':' as u32, '&' as u32, 'a' as u32, 'k' as u32, 0xE9, 0x1F600, '\n' as u32, '1' as u32, 'p' as u32, 'u' as u32, 'K' as u32, 0x17F,
+    // the ends of the encoding ranges
+    0x80, 0xA9, 0xFF, 0x100, 0x7FF, 0x800, 0xFFFF, 0x10000, 0x10FFFF, 0x0, 0x7F,
 ];
 
 fn substring_occurrences(hay: &str, needle: &str) -> Vec<(usize, usize)> {
@@ -1012,8 +1014,8 @@ pub fn c18(rep: &mut Report, thorough: bool, n: usize, seed: u64) {
             String::new(),
             "a".to_string(),
         ];
-        for f in flag_sets.iter() {
-            let re = match compile(&esc, f, false) {
+        for (f, no_opt) in flag_sets.iter().flat_map(|f| [(f, false), (f, true)]) {
+            let re = match compile(&esc, f, no_opt) {
                 Ok(re) => re,
                 Err(e) => {
                     rep.violation("impl-vs-spec", format!("escape({:?}) = {:?} does not compile under flags {:?}: {}", st, esc, f, e), format!("{:?} {}", st, f));
@@ -1031,7 +1033,7 @@ pub fn c18(rep: &mut Report, thorough: bool, n: usize, seed: u64) {
                 let got: Vec<(usize, usize)> = re.find_iter(h).map(|m| (m.start(), m.end())).collect();
                 let want = substring_occurrences(h, &st);
                 if got != want {
-                    rep.violation("impl-vs-oracle", format!("escape({:?}) under {:?} in {:?}: want {:?} got {:?}", st, f, h, want, got), format!("{:?} {} {:?}", st, f, h));
+                    rep.violation("impl-vs-oracle", format!("escape({:?}) under {:?} (no_opt={}) in {:?}: want {:?} got {:?}", st, f, no_opt, h, want, got), format!("{:?} {} {:?}", st, f, h));
                 }
             }
         }
